@@ -129,6 +129,13 @@ pub trait Property: Sync {
     /// Strictly simpler candidate scenarios for delta debugging.
     fn shrink(&self, sc: &Self::Scenario) -> Vec<Self::Scenario>;
 
+    /// Is the scenario inside the property's domain (what the generators are allowed to produce)?
+    /// The minimiser only accepts candidates for which this holds, so a minimised replay file is
+    /// never an input on which correct code may fail too.
+    fn valid(&self, _sc: &Self::Scenario) -> bool {
+        true
+    }
+
     /// Structural predicates satisfied by this (minimised) scenario / violation, used to
     /// recognise listed known findings.
     fn fingerprints(&self, sc: &Self::Scenario, v: &Violation) -> Vec<String>;
